@@ -345,6 +345,18 @@ func genC05(t *rapid.T) CaseC05 {
 		c.Input = c05Shape(t, c.Family, d.Body, 40)
 	case "filter-pmt", "readpmt", "accumulator", "readpat", "sync", "iowriter":
 		pid := rapid.SampledFrom([]int{0x64, 0x100, 0, 0x1FFF}).Draw(t, "spid")
+		if c.Target == "filter-pmt" && rapid.IntRange(0, 25).Draw(t, "bigfirst") == 0 {
+			// more than 64 KiB on the PMT PID behind a tiny first section of another table: 16-bit offsets must not wrap
+			c.Family = "bigfirst"
+			c.Input = c05BigFirst(pid, rapid.SampledFrom([]byte{0x00, 0x42, 0xFF, 0x03}).Draw(t, "bf-tid"), rapid.IntRange(0, 6).Draw(t, "bf-slen"),
+				rapid.IntRange(0, 2).Draw(t, "bf-fill"), rapid.SampledFrom([]int{355, 356, 357, 358, 360}).Draw(t, "bf-packets"))
+			c.Arg = pid
+			req := rapid.SampledFrom([][]int{{0}, {0, 0x1FFF}, {0x101}, {pid}, {0x101, 0}}).Draw(t, "bf-request")
+			for _, v := range req {
+				c.Aux = append(c.Aux, byte(v>>8), byte(v))
+			}
+			break
+		}
 		c.Input = c05Stream(t, c.Family, pid)
 		c.Arg = pid
 		n := rapid.IntRange(0, 4).Draw(t, "npids")
@@ -430,6 +442,39 @@ func genC05(t *rapid.T) CaseC05 {
 		c.Input = ref.Hex{}
 	}
 	return c
+}
+
+// c05BigFirst builds n payload-only packets on one PID whose concatenated payload is pointer_field 0, a
+// first section of table tid with section_length slen, and then filler shaped like the body of a program
+// map section: 0 = program header + 8-byte stream entries, 1 = all 0xFF, 2 = 5-byte stream entries without descriptors.
+func c05BigFirst(pid int, tid byte, slen, fill, n int) []byte {
+	payload := []byte{0x00, tid, 0x00, byte(slen)}
+	switch fill {
+	case 0:
+		payload = append(payload, 0xFF, 0xFF, 0xFF, 0x00, 0x00, 0xFF, 0xFF, 0xF0, 0x04, 0x01, 0x02, 0x03, 0x04)
+	case 2:
+		payload = append(payload, 0x00, 0x01, 0xC1, 0x00, 0x00, 0xE1, 0x00, 0xF0, 0x00)
+	}
+	for len(payload) < n*184 {
+		switch fill {
+		case 0:
+			payload = append(payload, 0x1B, 0xE1, 0x01, 0xF0, 0x03, 0x52, 0x01, 0x00)
+		case 1:
+			payload = append(payload, 0xFF)
+		default:
+			payload = append(payload, 0x0F, 0xE1, 0x01, 0xF0, 0x00)
+		}
+	}
+	out := make([]byte, 0, n*188)
+	for i := 0; i < n; i++ {
+		h := []byte{0x47, byte(pid >> 8 & 0x1F), byte(pid), 0x10 | byte(i&15)}
+		if i == 0 {
+			h[1] |= 0x40
+		}
+		out = append(out, h...)
+		out = append(out, payload[i*184:(i+1)*184]...)
+	}
+	return out
 }
 
 // c05BigLoop builds a splice_null section whose descriptor_loop_length is
@@ -1042,7 +1087,7 @@ func checkC05(c CaseC05, x *hx.Ctx) *hx.Failure {
 var propC05 = hx.Register(hx.Prop[CaseC05]{ID: "C05", Gen: genC05, Check: checkC05})
 
 func c05Rule() {
-	hx.Rec("C05").SetRule("cases: (entry-point group, input) over 17 groups: packet accessors / adaptation-field getters / modifiers on 188-byte arrays; FromBytes; PSI accessors; NewPAT, NewPMT (+ every getter, descriptor decoder, String, RemoveElementaryStreams), descriptor decoders directly, FilterPMTPacketsToPids; NewPESHeader; ReadEncoderBoundaryPoint; NewSCTE35 (+ every getter of signal/command/descriptors, String, UpdateData, re-decode, state tracker); Sync, ReadPAT, ReadPMT, accumulator, IOWriter.Write/ReadFrom over byte streams through fragmenting and failing readers. Inputs come from three families: well-formed instances from the reference builders; those instances mutated 1..3 times (truncate anywhere, boundary constants 0x00/0xFF/0x7F/0x80/0x0D/0x47/183/184/188 at any offset, +-1/2 on any byte, random byte, extension, bit flip, byte removal; for packets: af_len 0..255, flags byte, AFC, variable-field length bytes; for SCTE-35: UPID type forced to MID with any residual length, segmentation descriptors ending 1..6 bytes early or 1..3 late inside otherwise consistent lengths, and 65 KiB sections with descriptor_loop_length >= 65270 ending up to 3 bytes short/long); arbitrary bytes. Oracle: no panic (recovered, keyed by innermost library function + statement text), returns within 20 s and below 1 GiB heap (in-process watchdog), every decoder call (NewPAT, NewPMT, NewPESHeader, ReadEncoderBoundaryPoint, NewSCTE35) allocates at most 32 KiB + 128 bytes per input byte and (on one case in eight) the whole call sequence at most 2 MiB + 16 KiB per input byte (exact TotalAlloc deltas), read-only operations leave the caller's buffer byte-identical, objects returned without error survive all getters, printing and re-encoding. Non-trivial: input from the mutated, arbitrary or bigloop family; distinct by (target, input).",
+	hx.Rec("C05").SetRule("cases: (entry-point group, input) over 17 groups: packet accessors / adaptation-field getters / modifiers on 188-byte arrays; FromBytes; PSI accessors; NewPAT, NewPMT (+ every getter, descriptor decoder, String, RemoveElementaryStreams), descriptor decoders directly, FilterPMTPacketsToPids; NewPESHeader; ReadEncoderBoundaryPoint; NewSCTE35 (+ every getter of signal/command/descriptors, String, UpdateData, re-decode, state tracker); Sync, ReadPAT, ReadPMT, accumulator, IOWriter.Write/ReadFrom over byte streams through fragmenting and failing readers. Inputs come from three families: well-formed instances from the reference builders; those instances mutated 1..3 times (truncate anywhere, boundary constants 0x00/0xFF/0x7F/0x80/0x0D/0x47/183/184/188 at any offset, +-1/2 on any byte, random byte, extension, bit flip, byte removal; for packets: af_len 0..255, flags byte, AFC, variable-field length bytes; for SCTE-35: UPID type forced to MID with any residual length, segmentation descriptors ending 1..6 bytes early or 1..3 late inside otherwise consistent lengths, and 65 KiB sections with descriptor_loop_length >= 65270 ending up to 3 bytes short/long; for the PMT filter: 355..360 packets (more than 64 KiB) on the PMT PID behind a first section of another table with section_length 0..6); arbitrary bytes. Oracle: no panic (recovered, keyed by innermost library function + statement text), returns within 20 s and below 1 GiB heap (in-process watchdog), every decoder call (NewPAT, NewPMT, NewPESHeader, ReadEncoderBoundaryPoint, NewSCTE35) allocates at most 32 KiB + 128 bytes per input byte and (on one case in eight) the whole call sequence at most 2 MiB + 16 KiB per input byte (exact TotalAlloc deltas), read-only operations leave the caller's buffer byte-identical, objects returned without error survive all getters, printing and re-encoding. Non-trivial: input from the mutated, arbitrary, bigloop or bigfirst family; distinct by (target, input).",
 		"a returned error is always acceptable",
 		"the CLI main package is not driven in-process",
 		"hang / heap thresholds (20 s, 1 GiB) are four to six orders of magnitude above the normal cost of a case; the allocation budgets are 4x (decoders) to 10x (whole sequence) above the maxima measured on the repaired tree (TestC05_ZAllocSurvey)")
